@@ -20,8 +20,10 @@ package lexer
 //@ ghost func lexText(s []rune, a int, b int) string
 //@ axiom forall s []rune, a int, b int :: {lexText(s, a, b)} len(lexText(s, a, b)) >= b - a
 //@ axiom forall s []rune, a int, b int :: {lexText(s, a, b)}
-//@   a + 2 <= b && (forall k int :: a <= k && k < b ==> 0 <= s[k] && s[k] <= 127)
-//@   ==> len(lexText(s, a, b)) == b - a && lexText(s, a, b)[1:len(lexText(s, a, b))-1] == lexText(s, a+1, b-1)
+//@   a <= b && (forall k int :: a <= k && k < b ==> 0 <= s[k] && s[k] <= 127) ==> len(lexText(s, a, b)) == b - a
+//@ axiom forall s []rune, a int, b int, i int, j int :: {lexText(s, a, b)[i:j]}
+//@   0 <= i && i <= j && j <= b - a && (forall k int :: a <= k && k < b ==> 0 <= s[k] && s[k] <= 127)
+//@   ==> lexText(s, a, b)[i:j] == lexText(s, a + i, a + j)
 
 //@ spec func cursorOK(b inputBuffer) bool = b != nil && 0 <= b.lb && b.lb <= b.fw && b.fw <= len(b.src) && b.endErr != nil
 
@@ -61,7 +63,7 @@ package lexer
 //@   ensures !(0 <= state && state <= 54) ==> result == -1
 //@   ensures r < 9 || r > 126 ==> result == -1
 //@   ensures reachS(0) && absS(0) == 0 && depthS(0) == 0
-//@   ensures reachS(state) ==> absS(result) == specDelta(absS(state), r)
+//@   ensures @bisim reachS(state) ==> absS(result) == specDelta(absS(state), r)
 //@   ensures reachS(state) && result != -1 ==> reachS(result) && depthS(result) <= depthS(state) + 1
 
 //@ ghost func run(s []rune, lb int, k int) int
@@ -72,18 +74,23 @@ package lexer
 //@   cursorOK(b) && state == run(b.src, b.lb, b.fw) && reachS(state) && depthS(state) <= b.fw - b.lb
 //@   && (forall k int :: b.lb <= k && k < b.fw ==> 0 <= b.src[k] && b.src[k] <= 127)
 
+//@ import "fmt"
+//@ spec func lexErrText(b inputBuffer, lo int, hi int) string =
+//@   fmt.Sprintf("lexical error at %s:%s", anys2(box(posAt(b, lo)), box(lexText(b.src, lo, hi))))
+
 //@ func (l *Lexer) evalDFA(state int) lexer.Token
 //@   requires l != nil && pendingOK(l.in, state)
 //@   split state 0 54
 //@   modifies l.in.lb
 //@   ensures l.in.lb == old(l.in.fw)
-//@   ensures result.Terminal == kindName(specKind(absS(state)))
+//@   ensures @terminal result.Terminal == kindName(specKind(absS(state)))
 //@   ensures result.Pos == posAt(l.in, old(l.in.lb))
 //@   ensures kindSkips(specKind(absS(state))) ==> result.Lexeme == ""
+//@   ensures @errmsg specKind(absS(state)) < 0 ==> result.Lexeme == lexErrText(l.in, old(l.in.lb), old(l.in.fw))
 //@   ensures kindIsLiteral(specKind(absS(state))) ==> result.Lexeme == kindName(specKind(absS(state)))
 //@   ensures specKind(absS(state)) == kindSTRING() || specKind(absS(state)) == kindREGEX()
 //@     ==> result.Lexeme == lexText(l.in.src, old(l.in.lb) + 1, old(l.in.fw) - 1)
-//@   ensures specKind(absS(state)) >= 0 && !kindSkips(specKind(absS(state))) && !kindIsLiteral(specKind(absS(state)))
+//@   ensures @lexeme-text specKind(absS(state)) >= 0 && !kindSkips(specKind(absS(state))) && !kindIsLiteral(specKind(absS(state)))
 //@     && specKind(absS(state)) != kindSTRING() && specKind(absS(state)) != kindREGEX()
 //@     ==> result.Lexeme == lexText(l.in.src, old(l.in.lb), old(l.in.fw))
 
@@ -110,6 +117,7 @@ package lexer
 //@   modifies l.in.lb, l.in.fw
 //@   decreases len(l.in.src) - l.in.lb
 //@   loop[0] invariant cursorOK(l.in) && l.in.lb == old(l.in.lb)
+//@   loop[0] invariant curr == 0 ==> l.in.fw == l.in.lb
 //@   loop[0] invariant curr == run(l.in.src, l.in.lb, l.in.fw) && curr != -1 && reachS(curr) && depthS(curr) <= l.in.fw - l.in.lb
 //@   loop[0] invariant forall k int :: l.in.lb <= k && k < l.in.fw ==> 0 <= l.in.src[k] && l.in.src[k] <= 127
 //@   loop[0] invariant forall k int :: {run(l.in.src, l.in.lb, k)} l.in.lb <= k && k <= l.in.fw ==> run(l.in.src, l.in.lb, k) != -1
@@ -118,7 +126,13 @@ package lexer
 //@   ensures sigStart(l.in.src, old(l.in.lb)) >= len(l.in.src) ==> result1 == l.in.endErr
 //@   ensures sigStart(l.in.src, old(l.in.lb)) < len(l.in.src) && kindAt(l.in.src, sigStart(l.in.src, old(l.in.lb))) < 0
 //@     ==> result1 != nil
+//@   ensures @errmsg sigStart(l.in.src, old(l.in.lb)) < len(l.in.src) && kindAt(l.in.src, sigStart(l.in.src, old(l.in.lb))) < 0
+//@     ==> errText(result1) == lexErrText(l.in, sigStart(l.in.src, old(l.in.lb)), longest(l.in.src, sigStart(l.in.src, old(l.in.lb))))
 //@   ensures sigStart(l.in.src, old(l.in.lb)) < len(l.in.src) && kindAt(l.in.src, sigStart(l.in.src, old(l.in.lb))) >= 0
 //@     ==> result1 == nil && l.in.lb == longest(l.in.src, sigStart(l.in.src, old(l.in.lb)))
 //@         && result0.Terminal == kindName(kindAt(l.in.src, sigStart(l.in.src, old(l.in.lb))))
 //@         && result0.Pos == posAt(l.in, sigStart(l.in.src, old(l.in.lb)))
+//@   ensures @lexeme sigStart(l.in.src, old(l.in.lb)) < len(l.in.src) && kindAt(l.in.src, sigStart(l.in.src, old(l.in.lb))) >= 0 ==>
+//@        (kindIsLiteral(kindAt(l.in.src, sigStart(l.in.src, old(l.in.lb)))) ==> result0.Lexeme == kindName(kindAt(l.in.src, sigStart(l.in.src, old(l.in.lb)))))
+//@     && (kindAt(l.in.src, sigStart(l.in.src, old(l.in.lb))) == kindSTRING() || kindAt(l.in.src, sigStart(l.in.src, old(l.in.lb))) == kindREGEX() ==> result0.Lexeme == lexText(l.in.src, sigStart(l.in.src, old(l.in.lb)) + 1, longest(l.in.src, sigStart(l.in.src, old(l.in.lb))) - 1))
+//@     && (!kindIsLiteral(kindAt(l.in.src, sigStart(l.in.src, old(l.in.lb)))) && kindAt(l.in.src, sigStart(l.in.src, old(l.in.lb))) != kindSTRING() && kindAt(l.in.src, sigStart(l.in.src, old(l.in.lb))) != kindREGEX() ==> result0.Lexeme == lexText(l.in.src, sigStart(l.in.src, old(l.in.lb)), longest(l.in.src, sigStart(l.in.src, old(l.in.lb)))))
